@@ -17,6 +17,7 @@ import (
 	"math/bits"
 	"os"
 	"regexp" // standard library engine on purpose (zoekt: grafana/regexp, go-re2)
+	"regexp/syntax"
 	"sort"
 	"strings"
 	"testing"
@@ -451,6 +452,39 @@ type c06Flags struct {
 	wordClassAuto                                  bool  // an auto-mode pattern with \w and no ASCII upper-case letter
 	invalid                                        error // a pattern the standard library does not compile
 	autoUpper, autoLower                           bool  // auto-mode patterns with / without upper-case letters
+	autoRepCaps bool // an auto-mode pattern whose upper-case letters are all under * + ? {n,m}
+}
+
+// c06CapsOnlyRepeated reports (for the evidence labels only) that every
+// upper-case letter of the pattern sits inside a repeated sub-expression.
+func c06CapsOnlyRepeated(v string) bool {
+	re, err := syntax.Parse(v, syntax.Perl)
+	if err != nil {
+		return false
+	}
+	outside, inside := false, false
+	var walk func(r *syntax.Regexp, rep bool)
+	walk = func(r *syntax.Regexp, rep bool) {
+		switch r.Op {
+		case syntax.OpLiteral, syntax.OpCharClass:
+			for _, c := range r.Rune {
+				if c >= 'A' && c <= 'Z' {
+					if rep {
+						inside = true
+					} else {
+						outside = true
+					}
+				}
+			}
+		case syntax.OpStar, syntax.OpPlus, syntax.OpQuest, syntax.OpRepeat:
+			rep = true
+		}
+		for _, sub := range r.Sub {
+			walk(sub, rep)
+		}
+	}
+	walk(re, false)
+	return inside && !outside
 }
 
 // c06InlineFlags matches (?i) (?s: … but not (?: and (?P<.
@@ -503,6 +537,9 @@ func c06Analyze(g *c06Group, mode string, f *c06Flags) {
 					}
 					if ascii || other {
 						f.autoUpper = true
+						if c06CapsOnlyRepeated(n.Val) {
+							f.autoRepCaps = true
+						}
 					} else {
 						f.autoLower = true
 					}
@@ -1071,7 +1108,24 @@ func (x *c06Gen) word() string { return regexp.QuoteMeta(x.recase(c06Pick(x.u, c
 
 // contentRegexp draws a regular expression (with operators) aimed at contents.
 // No ^ $ (text vs line anchors), no upper-case escape classes, no inline flags.
+// c06RepCapsContent: regexps whose only upper-case letters sit under * + ? or
+// {n,m} (literal, group or class). case:auto must still be case-sensitive; the
+// vocabulary has the exact-case and the lower-case variant of each target
+// (fooBar/foobar, Foo/foo, FOO, Bar/bar, Bob/bob, Band/band).
+var c06RepCapsContent = []string{
+	"fooB+ar", "foo(B)+ar", "foo(B)?ar", "fooB*ar", "foo(B){0,2}ar", "foo[A-Z]+ar", "foo[A-Z]?ar", "foo(B|Z)+ar", "fooB{1,2}ar",
+	"F+oo", "(F)+oo", "[FB]+oo", "(Foo)+", "(FOO|BAR)+", "(FOO)+", "F{1,2}oo", "(F|Z)+oo", "[A-Z]+oo",
+	"B+ar", "(Bar)+", "(B)+ob", "(Bob){1,2}", "B+and", "(Band)+", "[A-Z]{1,2}and", "(B)?and", "b(A)?r", "fo(O)*d", "(Foo|Bar)+",
+}
+
+var c06RepCapsFile = []string{
+	"L+ist", "(L)+ist", "l(I)?st", "[A-Z]+\\.txt", "(MEMS)+\\.", "(T)+ype", "(GUILE){1,2}", "[A-Z]+\\.mk$", "(CHECK)+", "[A-Z]{3}", "(L|K)+ist", "T{1,2}ype",
+}
+
 func (x *c06Gen) contentRegexp() string {
+	if x.u.pct(15, "repcaps") {
+		return c06Pick(x.u, c06RepCapsContent, "repcapsv")
+	}
 	switch x.u.rng(0, 13, "cre") {
 	case 0:
 		return x.word() + ".*" + x.word()
@@ -1113,6 +1167,9 @@ func (x *c06Gen) fileLiteral() string {
 }
 
 func (x *c06Gen) fileRegexp() string {
+	if x.u.pct(20, "frepcaps") {
+		return c06Pick(x.u, c06RepCapsFile, "frepcapsv")
+	}
 	re := c06Pick(x.u, []string{
 		`\.py$`, `^pkg/`, `list\.(c|h)$`, `[kl]i[st]`, `_test`, `\.(c|h)$`, `^[^/]+$`, `/.*/`, `\.g$`, `^sys/.*\.c$`, `util|kit`,
 		`(?:util|list)\.`, `c\+\+`, `v1\.5`, `the guile`, `^x$`, `t.t`, `e+`, `[A-Z]{3}`, `\.(txt|mk)$`, `^(pkg|sys)/`,
@@ -1481,6 +1538,9 @@ func c06Check(c *c06Case, e *c06Env, s string, cache map[string]*regexp.Regexp) 
 	}
 	if o.fl.autoLower {
 		r.labels = append(r.labels, "auto:pattern-without-upper")
+	}
+	if o.fl.autoRepCaps {
+		r.labels = append(r.labels, "auto:capitals-only-under-repetition")
 	}
 	if o.ambiguous != "" {
 		r.labels = append(r.labels, "skip:document-silent", "silent:"+o.ambiguous)
